@@ -16,6 +16,9 @@ if REPO not in sys.path:
     sys.path.insert(0, REPO)
 
 KNOWN_FILE = os.path.join(VERIF, 'known_findings.json')
+# overridable so that runs against scratch copies (tools/mutant.py, tools/seedrun.py) never touch the real evidence
+EVIDENCE_DIR = os.environ.get('VERIF_EVIDENCE_DIR') or os.path.join(VERIF, 'evidence')
+REPLAY_DIR = os.environ.get('VERIF_REPLAY_DIR') or os.path.join(VERIF, 'replays')
 
 
 def load_known():
@@ -50,8 +53,8 @@ class Check:
         self.extra = {}
         self.exhaustive = None
         self.known = [k for k in load_known().get('findings', []) if k['property'] == pid]
-        os.makedirs(os.path.join(VERIF, 'evidence'), exist_ok=True)
-        os.makedirs(os.path.join(VERIF, 'replays'), exist_ok=True)
+        os.makedirs(EVIDENCE_DIR, exist_ok=True)
+        os.makedirs(REPLAY_DIR, exist_ok=True)
 
     # ------------------------------------------------------------------ obligations (deductive part)
     def function(self, qualname, file, lineno, end_lineno, src):
@@ -119,7 +122,7 @@ class Check:
             self.violations.append(None)
             return True
         name = re.sub(r'[^A-Za-z0-9_.-]+', '_', str(sig.get('obligation', 'case')))[:60]
-        path = os.path.join(VERIF, 'replays', f'{self.pid}-{name}-{sha1_text(json.dumps(sig, default=str, sort_keys=True))}.py')
+        path = os.path.join(REPLAY_DIR, f'{self.pid}-{name}-{sha1_text(json.dumps(sig, default=str, sort_keys=True))}.py')
         body = replay_src or ''
         header = f'"""Replay for a violation of {self.pid}\nobligation/case: {sig.get("obligation")}\n{what}\nsignature: {json.dumps(sig, default=str)[:2000]}\n"""\n'
         with open(path, 'w') as f:
@@ -182,7 +185,7 @@ class Check:
             level = 'other'
         ev = dict(property_id=self.pid, tier=self.tier, seed=self.seed, level=level, coverage=cov,
                   assumptions=self.assumptions, wall_s=round(time.time() - self.t0, 2), violations=nviol)
-        with open(os.path.join(VERIF, 'evidence', f'{self.pid}.json'), 'w') as f:
+        with open(os.path.join(EVIDENCE_DIR, f'{self.pid}.json'), 'w') as f:
             json.dump(ev, f, indent=1, default=str)
             f.write('\n')
         if self.broken:
